@@ -68,6 +68,15 @@ SPre(t, env, cwd, ps) ==
   /\ attempts' = <<>> /\ res' = NoRes /\ reported' = FALSE /\ penv' = env /\ pcwd' = cwd /\ pass' = ps
   /\ UNCHANGED <<cfg, base, nforks, libpipes, maxAllocs, parentStdTouched, viol, sanity>>
 
+\* the parent's OWN standard stream fd (0-2) -- the object that was there when the scenario began -- is closed or
+\* overwritten by the library in the parent.  (With a standard descriptor closed beforehand, the number may be taken
+\* by a pipe end of the library or by a file the caller passed in: closing those is the library's business.)
+TouchesParentStd(p, n, a, b) ==
+  LET fd == IF n = "close" THEN a ELSE b IN
+  /\ p = 0 /\ n \in {"close", "dup2"} /\ fd <= 2 /\ fd >= 0
+  /\ fd \in DOMAIN base /\ fd \in DOMAIN ptab
+  /\ ptab[fd].ino = base[fd].ino /\ ptab[fd].acc = base[fd].acc
+
 \* ---------------------------------------------------------------- system calls (kernel semantics)
 F_GETFD == 1
 F_SETFD == 2
@@ -104,14 +113,14 @@ Sys(p, n, a, b, c, ret, errno, s, allocs) ==
      ELSE /\ execd' = execd /\ didExec' = didExec
           /\ attempts' = IF p = 1 /\ n = "execve" THEN Append(attempts, <<s, errno>>) ELSE attempts
   /\ maxAllocs' = IF p = 1 /\ allocs > maxAllocs THEN allocs ELSE maxAllocs
-  /\ parentStdTouched' = (parentStdTouched \/ (p = 0 /\ ((n = "close" /\ a <= 2) \/ (n = "dup2" /\ b <= 2))))
+  /\ parentStdTouched' = (parentStdTouched \/ TouchesParentStd(p, n, a, b))
   /\ viol' = viol
        \cup V(p = 1 /\ n \in {"execve", "_exit", "escape"} => allocs = 0, "C17_no_alloc_between_fork_and_exec")
        \* the forked child must exec or _exit; coming back out of the library (e.g. by a panic that
        \* unwinds) makes it run on as a copy of the parent
        \cup V(n # "escape", "C07_forked_child_escaped")
        \cup V(n # "escape", "C15_forked_child_escaped")
-       \cup V(~(p = 0 /\ ((n = "close" /\ a <= 2) \/ (n = "dup2" /\ b <= 2))), "C05_parent_std_untouched")
+       \cup V(~TouchesParentStd(p, n, a, b), "C05_parent_std_untouched")
   /\ UNCHANGED <<cfg, base, pre, res, reported, penv, pcwd, pass>>
 
 \* ---------------------------------------------------------------- result of Popen::create
